@@ -58,18 +58,18 @@ struct VECTOR_BLF_EXPORT DistributedObjectMember final : ObjectHeader {
     uint32_t detailType {DetailType::DetailTypeInvalid};
 
     /** @brief length of variable name in bytes */
-    uint32_t pathLength;
+    uint32_t pathLength {};
 
     /** @brief length of variable data in bytes */
-    uint32_t dataLength;
+    uint32_t dataLength {};
 
     /* dynamic */
 
     /** @brief path of the distributed object member */
-    std::string path;
+    std::string path {};
 
     /** @brief variable data */
-    std::vector<uint8_t> data;
+    std::vector<uint8_t> data {};
 };
 
 }
